@@ -57,8 +57,11 @@ def build_pair(rng, max_len=10, controls=0.0):
     from rich.text import Text
     s = rand_text(rng, max_len, controls)
     base = rand_style(rng) if rng.random() < 0.4 else None
-    t = Text(s, style=real_style(rng, base))
+    tab = rng.choice([8, 8, 8, 8, 4, 2, 3, 1])
+    t = Text(s, style=real_style(rng, base)) if tab == 8 and rng.random() < 0.7 else \
+        Text(s, style=real_style(rng, base), tab_size=tab)
     m = M.TM.from_str(s, base)
+    m.tab = tab
     applied = []
     # a small palette of styles re-used within the case, and span ends aligned with earlier spans:
     # equal-valued spans (and pieces of spans that become equal-valued after a split) expose
@@ -89,8 +92,20 @@ def build_pair(rng, max_len=10, controls=0.0):
     return t, m
 
 
+_UNOBSERVED = [False]
+
+
 def compare(ctx, t, m, log, op):
     """The monitor: after every operation."""
+    if _UNOBSERVED[0]:
+        # a history whose intermediate values nobody looks at: reading `plain`, comparing, rendering all make the
+        # text consolidate its internal pieces, so a run that looks after every step can never see what a program
+        # that just keeps editing sees.  Only len() is asked here; the full comparison comes at the end of the run.
+        ctx.count("mon.len_unobserved")
+        if len(t) != len(m.plain):
+            ctx.violation("len-differs-after:%s:in-a-history-nobody-looked-at" % op, {"log": log, "len": len(t), "want": len(m.plain)})
+            return False
+        return True
     ctx.count("mon.plain")
     if t.plain != m.plain:
         ctx.violation("plain-differs-after:" + op, {"log": log, "plain": t.plain, "model": m.plain})
@@ -218,7 +233,7 @@ def step(ctx, rng, t, m, log):
                 ctx.violation("assemble-ignores-an-option:tab_size", {"log": log, "got": t.tab_size, "want": own_tab})
             t.expand_tabs()
             m.expand_tabs(own_tab)
-            t.tab_size = 8
+            m.tab = own_tab
     elif op == "join":
         sep_t, sep_m = build_pair(rng, rng.choice([0, 1, 2]))
         others = [build_pair(rng, 5) for _ in range(rng.randint(0, 2))]
@@ -226,7 +241,7 @@ def step(ctx, rng, t, m, log):
         pieces = others[:pos] + [(t, m)] + others[pos:]
         log.append([op, sep_m.plain, [p[1].plain for p in pieces]])
         t = sep_t.join(_as_iterable(rng, [p[0] for p in pieces], log))
-        newm = M.TM([], sep_m.base)
+        newm = M.TM([], sep_m.base, sep_m.tab)
         for k, (_, pm) in enumerate(pieces):
             if k and sep_m.plain:
                 newm.append_tm(sep_m)
@@ -252,13 +267,17 @@ def step(ctx, rng, t, m, log):
         return _choose_piece(ctx, rng, lines, mp, log, op)
     elif op == "divide":
         k = rng.randint(0, 4)
-        offsets = sorted(rng.choice([0, n, rng.randint(0, n), rng.randint(0, n)]) for _ in range(k))
-        log.append([op, offsets])
-        lines = t.divide(_as_iterable(rng, offsets, log))
+        offsets = sorted(rng.choice([0, n, rng.randint(0, n), rng.randint(0, n), n + rng.randint(0, 3)]) for _ in range(k))
+        given = list(offsets)
+        if rng.random() < 0.2:
+            # the same positions counted from the end (negative indices, as in a slice)
+            given = [o - n if o < n and rng.random() < 0.6 else o for o in offsets]
+        log.append([op, given])
+        lines = t.divide(_as_iterable(rng, given, log))
         if not offsets:
             bounds = [(0, n)]
         else:
-            cuts = [0] + offsets + [n]
+            cuts = [0] + [min(o, n) for o in offsets] + [n]
             bounds = list(zip(cuts, cuts[1:]))
         return _choose_piece(ctx, rng, lines, m.pieces(bounds), log, op)
     elif op == "fit":
@@ -289,13 +308,13 @@ def step(ctx, rng, t, m, log):
             ctx.violation("index-out-of-range-accepted", {"log": log})
             return t, m, op, False
         t = t[i]
-        m = M.TM([m.chars[i]], m.base)
+        m = M.TM([m.chars[i]], m.base, m.tab)
     elif op == "slice":
         a = rng.choice([None, rng.randint(-n - 2, n + 2)])
         b = rng.choice([None, rng.randint(-n - 2, n + 2)])
         log.append([op, a, b])
         t = t[a:b]
-        m = M.TM(m.chars[slice(a, b)], m.base)
+        m = M.TM(m.chars[slice(a, b)], m.base, m.tab)
     elif op in ("pad", "pad_left", "pad_right"):
         count = rng.choice([0, 1, 2, 5])
         ch = rng.choice([" ", " ", "-", "漢", rng.choice(M.STRIP)])
@@ -347,9 +366,10 @@ def step(ctx, rng, t, m, log):
     elif op == "expand_tabs":
         ts = rng.choice([None, 1, 2, 4, 8])
         log.append([op, ts])
-        t.tab_size = 8
+        # (without an argument: the text's own tab size - the one it was built with, or inherited from the text it
+        # was derived from)
         t.expand_tabs(ts)
-        m.expand_tabs(ts or 8)
+        m.expand_tabs(ts or m.tab)
     elif op == "rstrip":
         log.append([op])
         t.rstrip()
@@ -459,7 +479,7 @@ def step(ctx, rng, t, m, log):
         # theme styles are not modelled: styles become "don't care", characters stay tracked
         m.chars = [(c, None) for c, _ in m.chars]
         style_only = True
-    if style_only:
+    if style_only and not _UNOBSERVED[0]:
         ctx.count("mon.style_only_ops")
         if t.plain != before_plain:
             ctx.violation("style-only-op-changed-characters:" + op,
@@ -525,7 +545,7 @@ def wl_histories(ctx, rng, case_no):
                 ctx.case_done(("h", repr(probe.spans), m.plain), False)
                 return
         shared = list(t.spans)
-        t = Text(m.plain, style=t.style, spans=shared)
+        t = Text(m.plain, style=t.style, spans=shared, tab_size=m.tab)
         sibling = (Text("sibling text!", spans=shared), [Span(s.start, s.end, s.style) for s in shared])
     log = [["construct", m.plain, repr(t.spans), str(t.style)] + (["spans-list-shared-with-a-second-Text"] if sibling else [])]
     if not compare(ctx, t, m, log, "construct"):
@@ -533,10 +553,17 @@ def wl_histories(ctx, rng, case_no):
         return
     nops = rng.randint(1, 12)
     done = 0
+    unobserved = sibling is None and rng.random() < 0.2
+    if unobserved:
+        log.append(["(from here on the intermediate values are not looked at: only len() after every step)"])
     retired = []        # (Text, model) pairs that an operation derived a NEW value from: they must not change any more
     for _ in range(nops):
         before_t, before_m = t, m.copy()
-        t, m, op, ok = step(ctx, rng, t, m, log)
+        _UNOBSERVED[0] = unobserved
+        try:
+            t, m, op, ok = step(ctx, rng, t, m, log)
+        finally:
+            _UNOBSERVED[0] = False
         ctx.hist("ops", op)
         done += 1
         if not ok or t is None:
@@ -570,6 +597,9 @@ def wl_histories(ctx, rng, case_no):
                     break
             if not ok:
                 break
+    if unobserved and ok and t is not None and done:
+        ctx.count("mon.unobserved_history_end")
+        compare(ctx, t, m, log, "a-history-nobody-looked-at")
     layered = any(l for _, l in m.chars if l) or m.base is not None
     ctx.hist("history_len", done)
     ctx.case_done(("h", repr(log)), done >= 3 and layered, {"log": log, "final_plain": m.plain})
